@@ -66,6 +66,9 @@ def requestUses : List (String × List String) := [("Broadcast", ["arg:codec.Dum
   ("SendUDP", ["arg:codec.Dump", "arg:connection.Write", "index-read"]),
   ("SendTCP", ["arg:codec.Dump", "arg:connection.Write", "index-read"])]
 
+/-- SendTCP: one `deadline := time.Now().Add(u.timeout)`, handed to the dialer and set on the connection -/
+def tcpSingleDeadline : Bool := true
+
 /-- per request method: what `bind` is initialised from, the condition under which it is replaced by the wildcard address, what the socket is opened on -/
 def bindFacts : List (String × List String) := [("Broadcast", ["net.UDPAddrFromAddrPort(u.bindAddr)", "bind == nil", "bind"]),
   ("BroadcastTo", ["net.UDPAddrFromAddrPort(u.bindAddr)", "bind == nil", "bind"]),
